@@ -1,4 +1,16 @@
 import json, sys, glob, os
+
+def sweep_of(m):
+    """check id -> rc: the sweep record if there is one, else what bin/seedtest
+    recorded (check_results "C01:rc=1 C09:rc=0")."""
+    sw = m.get("sweep") or {}
+    out = {c: r.get("rc") for c, r in sw.items() if isinstance(r, dict)}
+    if not out:
+        import re as _re
+        for c, rc in _re.findall(r"(C\d\d):rc=(\d)", m.get("check_results", "")):
+            out[c] = int(rc)
+    return out
+
 sys.path.insert(0, '/verif/lib')
 import meta
 props = {}
@@ -9,8 +21,8 @@ seeds = {}      # check id -> [(seed name, aimed-at property)] it reports (rc = 
 for d in sorted(glob.glob('/verif/seeded/*/meta.json')):
     m = json.load(open(d))
     name = os.path.basename(os.path.dirname(d))
-    for chk_id, r in (m.get('sweep') or {}).items():
-        if isinstance(r, dict) and r.get('rc') == 1:
+    for chk_id, rc in sweep_of(m).items():
+        if rc == 1:
             seeds.setdefault(chk_id, []).append((name, m.get('property')))
 man = json.load(open('/verif/MANIFEST.json'))
 chk = {c['property_id']: c for c in man['checks']}
